@@ -15,6 +15,13 @@ def run(tier):
     classes = en.cls("GUARD") | (en.cls("REQ") if thorough else 0)
     args = ["--tier", tier, "--dev", "2" if thorough else "1", "--batch", "2" if thorough else "1", "--classes", str(classes),
             "--dev-immediate", "1", "--imm-reduced", "0" if thorough else "1", "--deadline", str(1500 if thorough else 150)]
+    if not thorough:
+        # the two smallest programs (flat; orthogonal root) once more with two deviations (e.g. a guard-issued follow-up request that is vetoed in its round)
+        d2 = en.curated(names=["flat3"]) + [en.Prog("tinyortho", "O(C(l,l),l)")]
+        for p in d2:
+            p.args = ["--dev", "2"]
+            p.label += "/dev2"
+        progs += d2
     res = en.run_all(chk, "C04", progs, args, timeout=(2400 if thorough else 400))
     en.aggregate(chk, res, "C04")
     chk.coverage["explanation"] = (
